@@ -11,6 +11,7 @@
 #include <cstdlib>
 #include <cstring>
 #include <cmath>
+#include <functional>
 #include <map>
 #include <string>
 #include <vector>
@@ -259,6 +260,18 @@ void entropy_set_call_seed(uint64_t seed);
 uint64_t entropy_draws_total();
 uint64_t entropy_other_sources();   // reads of clock/rand/... by linked objects (never legitimate for libphysica)
 void entropy_attach_log(Log* log);
+
+// Pristine-process oracle: start() must be called before the engine's first library call in this process. It forks a
+// server that never calls the library itself; every ask() is answered by `handler` running in a worker forked from that
+// server, i.e. in a process image whose process-global state (function statics, memo tables, errno, ...) is untouched.
+struct RefServer
+{
+	int req = -1, resp = -1;
+	void start(std::function<std::string(const std::string&)> handler);
+	// returns false if the server is not running; worker_ok = false if the worker did not return (exit/crash in the library)
+	bool ask(const std::string& request, std::string& response, bool& worker_ok);
+	bool running() const { return req >= 0; }
+};
 
 int sim_main(int argc, char** argv, std::vector<Engine*> engines);
 
